@@ -1237,7 +1237,7 @@ fn main() {
             if total_viol > rep.impl_violations.len() {
                 rep.notes.push(format!("{total_viol} violations found; the {} smallest with distinct keys are reported", rep.impl_violations.len()));
             }
-            rep.notes.push(format!("programs generated: {from}; argument tuples per program: 8; corpus programs: {} ({} one per clause of the statement; {} implicit host calls: f-strings with 2 and 3 parts x part kinds (host value with a logging to_string, effectful call, block with effect), the equality of the host type; {} bare variable / path as a constructor component assigned by a later component; {} records: every written order of R, P (two fields), G[T], H[T] x shapes of literal, 3 fields x 4 shapes of reading / assigning a field; {} matches: pattern variant x examinee variant, one named variant + `_`, guarded `_` between two variants)", corpus().len(), corpus_clauses().len(), corpus_implicit().len(), corpus_bare().len(), corpus_records().len(), corpus_matches().len()));
+            rep.notes.push(format!("programs generated: {from}; argument tuples per program: 8; corpus programs: {} ({} one per clause of the statement; {} implicit host calls: f-strings with 2 and 3 parts x part kinds (host value with a logging to_string, effectful call, block with effect), the equality of the host type; {} bare variable / path as a constructor component assigned by a later component; {} records: every written order of R, P (two fields), G[T], H[T] x shapes of literal, 3 fields x 4 shapes of reading / assigning a field; {} matches: pattern variant x examinee variant, one named variant + `_`, guarded `_` between two variants; {} desugared operators: string + with a lazy left operand x effects nested in the right operand)", corpus().len(), corpus_clauses().len(), corpus_implicit().len(), corpus_bare().len(), corpus_records().len(), corpus_matches().len(), corpus_desugared().len()));
         }
         Some("worker") => {
             if std::env::var("C08_VERBOSE").is_err() {
